@@ -239,6 +239,14 @@ fn handle(line: &str) -> String {
                 Err(_) => "err".to_string(),
             }
         }
+        "lead_of" => {
+            // <hex name>: the first 96 bytes of a package built with that name
+            let name = if p[1] == "-" { String::new() } else { unhex(p[1]) };
+            match rpm::PackageBuilder::new(&name, "1", "MIT", "noarch", "s").compression(rpm::CompressionType::None).build() {
+                Err(_) => "build-err".to_string(),
+                Ok(pkg) => { let mut o = Vec::new(); pkg.write(&mut o).unwrap(); format!("ok {}", hexb(&o[..96])) }
+            }
+        }
         "build_name" => {
             // <name|version> <n>: required metadata of n bytes, then build()
             let n: usize = p[2].parse().unwrap_or(66);
